@@ -23,6 +23,7 @@ ASSUMPTIONS = ['the documented grammar in doc/sphinx/guide/formula_grammar.rst i
 _s = {}
 
 MALFORMED_MIN = 20
+SUITE_UNDER_CONTRACTS = True
 
 
 def _nested_code(code, names, out):
@@ -93,6 +94,9 @@ def setup(ctx):
     ctx.require('contract._count_atoms', 1, 'the _count_atoms postcondition must have been evaluated')
     if not ctx.replay:
         ctx.require('cases.private', 1, 'private-table share of the workload')
+        for cls in ('unknown-symbol', 'undefined-isotope', 'undefined-charge', 'bad-isotope-tag', 'bad-ion-tag',
+                    'bad-count', 'unbalanced-bracket', 'bad-density'):
+            ctx.require('malformed.' + cls, MALFORMED_MIN, 'every malformation class must be exercised')
 
 
 def finish(ctx):
